@@ -157,7 +157,9 @@ func genC11Doc(t *rapid.T) c11Doc {
 // unicodeSnippet holds text that the byte-stream entry points normalise (decomposed accents, Hangul
 // jamo, soft hyphens, NFC singletons): they must treat it exactly as Apply on the reference parse.
 const unicodeSnippet = "<p>re\u0301sume\u0301 co\u00adoperate nai\u0308ve \u1112\u1161\u11ab \u212b \u2126 fi\u00adnal e\u0301te\u0301 " +
-	"cafe\u0301 soft\u00adhyphen A\u030a o\u0302 u\u0308 n\u0303 text text text text text text text text text text text text.</p>"
+	"cafe\u0301 soft\u00adhyphen A\u030a o\u0302 u\u0308 n\u0303 text text text text text text text text text text text text.</p>" +
+	// compatibility characters: the normalisation is canonical (NFC), it must leave them alone
+	"<p>\ufb01nancial of\ufb02ine 12 km\u00b2 5 \u00b5m \u00bd cup \u2167 Acme\u2122 \uff37\uff29\uff24\uff25 x\u00b9 \u2460 text text text text text text text text text text text.</p>"
 
 func genC11(t *rapid.T) *Case {
 	ex := c11Extra{Repeat: 8}
@@ -170,6 +172,12 @@ func genC11(t *rapid.T) *Case {
 		d := genC11Doc(t)
 		if rapid.IntRange(0, 2).Draw(t, "unicode") == 0 {
 			d.HTML = strings.Replace(d.HTML, "</body>", unicodeSnippet+"</body>", 1)
+		}
+		if rapid.IntRange(0, 5).Draw(t, "headnoscript") == 0 {
+			// a <noscript> with flow content in the head (the "please enable JavaScript" notice) and one
+			// with a block inside a paragraph: how they are parsed depends on the parser's scripting flag
+			d.HTML = strings.Replace(d.HTML, "</head>", `<noscript><p>please enable javascript hb9001q hb9002q</p><img src="/track.gif"></noscript></head>`, 1)
+			d.HTML = strings.Replace(d.HTML, "</body>", `<p>before hb9003q <noscript><div>inside hb9004q hb9005q</div></noscript> after text text text text text text text text text text.</p></body>`, 1)
 		}
 		if rapid.IntRange(0, 3).Draw(t, "sparse") == 0 {
 			// one non-ASCII word in English prose (short: several encodings are equally likely;
